@@ -118,7 +118,7 @@ fn check(cw: u8, cn: u8, tw: u8, tn: u8, dict: u8, corpus: usize, solver: usize)
 
 pub fn search() -> Option<String> {
     for corpus in 0..CORPORA.len() {
-        let hi: u8 = if std::env::var("VERIF_TIER").map_or(false, |t| t == "thorough") { 5 } else { 3 };
+        let hi: u8 = if crate::thorough() { 5 } else { 3 };
         for cw in 1..=hi {
             for tw in 1..=hi {
                 for cn in 1..=hi {
